@@ -19,6 +19,15 @@ from .. import instream as ins
 from ..core import cps, ucs
 
 DEFECTS = ["lone-cr-chunk", "unget-prepend-position", "invalid-codepoint-per-chunk"]
+
+
+def listed_defects(ctx):
+    """deviations the code-faithful model carries = the open known findings of C05.  VERIF_C05_FIXED=key,key
+    treats keys as repaired (for trying a patched tree before known_findings.json is updated)."""
+    import os
+    for k in os.environ.get("VERIF_C05_FIXED", "").split(","):
+        ctx.open_keys.pop(k.strip(), None)
+    return [d for d in DEFECTS if d in ctx.open_keys]
 WITNESS_THM = {"lone-cr-chunk": ("refine", "ThmRefine"), "unget-prepend-position": ("position", "ThmPosition"),
                "invalid-codepoint-per-chunk": ("errors", "ThmErrors")}
 ALPHA = [13, 10, 97, 60, 55357, 56832]         # CR LF a < lead-surrogate trail-surrogate
@@ -494,7 +503,7 @@ def build_groups(ctx, listed):
 
 
 def run(ctx):
-    listed = [d for d in DEFECTS if d in ctx.open_keys]
+    listed = listed_defects(ctx)
     q = ctx.quick
     mc_int = [(ALPHA, 2, 4, 5), (ALPHA_WIDE, 3, 3, 4)] if q else [(ALPHA, 3, 5, 6), (ALPHA_WIDE, 2, 4, 5)]
     mc_exp = (ALPHA, 2, 3, 4) if q else (ALPHA, 2, 4, 4)
@@ -621,7 +630,7 @@ def replay(case):
     kind = c.get("kind")
     ctx = core.Ctx("C05", "quick", 0)
     ctx.pid = "C05"
-    listed = [d for d in DEFECTS if d in ctx.open_keys]
+    listed = listed_defects(ctx)
     bad = None
     if kind == "behaviour":
         bad = replay_behaviour({"h": c["h"], "raw": c["raw"]})
